@@ -163,6 +163,52 @@ pub fn rand_order_case(text: &str) -> Vec<(String, String)> {
     out
 }
 
+
+/// ADFs for the determinism clause: two open statements first, then 3-4 statements the grounded propagation decides
+/// (constants, or chains hanging off a constant), and open conditions that mention all of them
+pub fn det_order_family() -> Vec<(String, usize)> {
+    use crate::oracle::Fm;
+    let mut out = vec![];
+    for k in [3usize, 4] {
+        for vals in 0..(1u32 << k) {
+            for chain in 0..2 {
+                for shape in 0..4 {
+                    for u1kind in 0..2 {
+                        let n = 2 + k;
+                        let d = |j: usize| Fm::Atom(2 + j);
+                        let mut conds: Vec<Fm> = vec![];
+                        let inner = match shape {
+                            0 => (1..k).fold(d(0), |acc, j| Fm::bin(4, acc, d(j))),
+                            1 => Fm::bin(1, Fm::bin(0, d(0), d(1)), (2..k).fold(Fm::not(d(0)), |acc, j| Fm::bin(4, acc, d(j)))),
+                            2 => (1..k).fold(d(0), |acc, j| Fm::bin(if j % 2 == 0 { 3 } else { 2 }, d(j), acc)),
+                            _ => Fm::bin(0, Fm::bin(1, d(0), d(k - 1)), Fm::bin(3, d(1), d(k - 2))),
+                        };
+                        conds.push(match shape {
+                            0 => Fm::bin(4, Fm::Atom(1), inner),
+                            1 => Fm::bin(1, Fm::bin(0, Fm::Atom(1), inner.clone()), Fm::bin(0, Fm::not(Fm::Atom(1)), Fm::not(inner))),
+                            2 => Fm::bin(3, Fm::Atom(1), inner),
+                            _ => Fm::bin(2, inner, Fm::Atom(1)),
+                        });
+                        conds.push(if u1kind == 0 { Fm::not(Fm::Atom(0)) } else { Fm::bin(4, Fm::Atom(0), Fm::bin(0, d(0), d(k - 1))) });
+                        for j in 0..k {
+                            let v = (vals >> j) & 1 == 1;
+                            if chain == 1 && j > 0 {
+                                let prev = (vals >> (j - 1)) & 1 == 1;
+                                conds.push(if v == prev { d(j - 1) } else { Fm::not(d(j - 1)) });
+                            } else {
+                                conds.push(if v { Fm::Top } else { Fm::Bot });
+                            }
+                        }
+                        let labels: Vec<String> = (0..n).map(|i| if i < 2 { format!("u{}", i) } else { format!("w{}", i - 2) }).collect();
+                        out.push((crate::large::LargeAdf { labels: labels.clone(), written: labels, conds, shape: "det-order" }.text(None, ("", "", "")), n));
+                    }
+                }
+            }
+        }
+    }
+    out
+}
+
 fn decode_seq(k: u64, len: usize) -> Vec<usize> {
     decode_seq_a(k, len, CALLS)
 }
@@ -321,6 +367,83 @@ pub fn run_c11(run: &Run) {
             run.add_counts(0, st, st, st);
         }
     }
+    // determinism where it is at risk: undecided statements whose conditions mention SEVERAL statements that the grounded
+    // propagation decides and that stand BELOW them in the variable order, so that substituting them rebuilds upper nodes -
+    // the order of the substitutions then decides which nodes are created in which order. Two fresh objects must return
+    // the same raw answers (handles included) and leave the same node table; every pair is built three times.
+    {
+        let texts = det_order_family();
+        let calls = [0usize, 1, 2, 4, 6, 9];
+        let res = run.par_family(
+            &format!("determinism of raw answers and node tables on {} ADFs whose open conditions mention 3-4 decided statements below them (native and bridged, {} calls, three repetitions)", texts.len(), calls.len()),
+            texts.len() as u64 * 2,
+            || (0u64, 0u64),
+            |st, k| {
+                let (text, n) = &texts[(k / 2) as usize];
+                let bridged = k % 2 == 1;
+                for c in calls {
+                    for _rep in 0..3 {
+                        let mut fresh: Vec<Option<Norm>> = vec![None; CALLS_EXT];
+                        st.0 += 1;
+                        st.1 += 2;
+                        for (kind, msg) in seq_case_n(text, *n, bridged, &[c], &mut fresh, true) {
+                            run.violation(&kind, format!("{} on {}", msg.chars().take(500).collect::<String>(), text), json!({"type": "call_seq_mid", "text": text, "n": n, "bridged": bridged, "calls": [c]}));
+                        }
+                    }
+                }
+            },
+            &|k| json!({"type": "call_seq_mid", "text": texts[(k / 2) as usize].0, "n": texts[(k / 2) as usize].1, "bridged": k % 2 == 1, "calls": [0]}),
+        );
+        for st in res {
+            run.add_counts(0, st.1, st.0, st.0);
+        }
+    }
+    // the verbosity of the process is not part of the input: the seeded Rand search must yield the same models in the same
+    // order whether or not a logger accepts TRACE records (sequential: the log level is a global of the process)
+    {
+        let mut texts: Vec<String> = vec![];
+        for k in [3usize, 5] {
+            let n = 2 * k;
+            let labels: Vec<String> = (0..n).map(|i| format!("p{}", i)).collect();
+            let conds: Vec<crate::oracle::Fm> = (0..n).map(|i| crate::oracle::Fm::not(crate::oracle::Fm::Atom(i ^ 1))).collect();
+            texts.push(crate::large::LargeAdf { labels: labels.clone(), written: labels, conds, shape: "pairs" }.text(None, ("", "", "")));
+        }
+        let a2 = Source::FamCompact(fam_a(2));
+        for k in 0..a2.size() {
+            texts.push(a2.get(k).text);
+        }
+        let ring = Source::Ring(6, run.seed % 4096, 4096);
+        for k in 0..ring.size().min(if quick { 64 } else { 4096 }) {
+            texts.push(ring.get(k).text);
+        }
+        let mut execs = 0u64;
+        for text in &texts {
+            let parser = AdfParser::default();
+            if !crate::fam::parse_into(&parser, text) {
+                continue;
+            }
+            let n = parser.dict_size();
+            let mut answers = vec![];
+            for on in [false, true, false] {
+                crate::report::trace_logging(on);
+                answers.push(run_seq(&parser, false, &[10, 9], n).map(|(_, raws, _)| raws));
+                execs += 2;
+            }
+            crate::report::trace_logging(false);
+            match (&answers[0], &answers[1], &answers[2]) {
+                (Ok(a), Ok(b), Ok(c)) => {
+                    if a != c {
+                        run.violation("determinism:answers", format!("two runs of the seeded Rand search on fresh objects differ on {}", text), json!({"type": "rand_verbosity", "text": text}));
+                    } else if a != b {
+                        run.violation("determinism:log-verbosity", format!("the seeded Rand search yields {:?} while a logger accepts TRACE records and {:?} otherwise, on {}", b, a, text), json!({"type": "rand_verbosity", "text": text}));
+                    }
+                }
+                _ => run.violation("determinism:panic", format!("the seeded Rand search failed on {}", text), json!({"type": "rand_verbosity", "text": text})),
+            }
+        }
+        run.add_counts(0, execs, texts.len() as u64, texts.len() as u64);
+        run.add_family(crate::report::FamilyCov { name: format!("seeded Rand search with and without a logger that accepts TRACE records: {} ADFs", texts.len()), size: texts.len() as u64, done: texts.len() as u64, exhaustive: true, note: String::new() });
+    }
     // mid-size objects: ring ADFs with 6 and 7 statements and large sparse ADFs, sequences of length <= 2 (<= 1)
     {
         let mid: Vec<(Source, usize)> = if quick {
@@ -404,10 +527,29 @@ pub fn replay(c: &Value) -> Vec<(String, String)> {
     if c["type"] == "rand_order" {
         return rand_order_case(c["text"].as_str().unwrap_or(""));
     }
+    if c["type"] == "rand_verbosity" {
+        let text = c["text"].as_str().unwrap_or("");
+        let parser = AdfParser::default();
+        if !crate::fam::parse_into(&parser, text) {
+            return vec![("parse".into(), "well-formed input rejected".into())];
+        }
+        let n = parser.dict_size();
+        let mut answers = vec![];
+        for on in [false, true] {
+            crate::report::trace_logging(on);
+            answers.push(run_seq(&parser, false, &[10, 9], n).map(|(_, raws, _)| raws));
+        }
+        crate::report::trace_logging(false);
+        return match (&answers[0], &answers[1]) {
+            (Ok(a), Ok(b)) if a == b => vec![],
+            (Ok(a), Ok(b)) => vec![("determinism:log-verbosity".into(), format!("the seeded Rand search yields {:?} while a logger accepts TRACE records and {:?} otherwise", b, a))],
+            _ => vec![("determinism:panic".into(), "the seeded Rand search failed".into())],
+        };
+    }
     if c["type"] == "call_seq_mid" {
         let seq: Vec<usize> = c["calls"].as_array().map(|a| a.iter().map(|x| x.as_u64().unwrap_or(0) as usize).collect()).unwrap_or_default();
-        let n = c["labels"].as_array().map(|a| a.len()).unwrap_or(6);
-        let mut fresh: Vec<Option<Norm>> = vec![None; CALLS];
+        let n = c["n"].as_u64().map(|x| x as usize).or_else(|| c["labels"].as_array().map(|a| a.len())).unwrap_or(6);
+        let mut fresh: Vec<Option<Norm>> = vec![None; CALLS_EXT];
         return seq_case_n(c["text"].as_str().unwrap_or(""), n, c["bridged"].as_bool().unwrap_or(false), &seq, &mut fresh, true);
     }
     if c["type"] == "call_seq" {
